@@ -1431,6 +1431,66 @@ func ruleBackwardScanReachesZero(c *Ctx, r *R) {
 			good := (op == token.GEQ && isConstInt(y, 0)) || (op == token.GTR && isConstInt(y, -1))
 			r.ok(good, name+"|scan-bound#"+itoa(n), bin.Pos(), "the backward scan continues while i "+op.String()+" "+path(y)+": it must include index 0 (i >= 0), otherwise a match in the first element is not found")
 		})
+		if n == 0 && name == "xslices.LastIndex" {
+			// LastIndex(s, x) as LastIndexFunc(s, func(item T) bool { return item == x }): the scan is LastIndexFunc's (judged
+			// above / below); here: the same slice, the result handed back, and a predicate that is equality with x
+			lf := c.fn("xslices.LastIndexFunc")
+			delegated := false
+			instrs(fn, func(_ *ssa.BasicBlock, _ int, in ssa.Instruction) {
+				ret, ok := in.(*ssa.Return)
+				if !ok || len(ret.Results) != 1 {
+					return
+				}
+				call, ok := returnedValue(ret, 0).(*ssa.Call)
+				if !ok || lf == nil || origin(staticCallee(&call.Call)) != origin(lf) || len(call.Call.Args) != 2 || call.Call.Args[0] != ssa.Value(fn.Params[0]) {
+					return
+				}
+				pred := resolveFuncValue(call.Call.Args[1], 0)
+				if pred == nil || pred.Parent() != fn || len(pred.Params) != 1 {
+					return
+				}
+				eq := true
+				nr := 0
+				instrs(pred, func(_ *ssa.BasicBlock, _ int, in2 ssa.Instruction) {
+					r2, ok := in2.(*ssa.Return)
+					if !ok {
+						return
+					}
+					nr++
+					bin, ok := returnedValue(r2, 0).(*ssa.BinOp)
+					if !ok || bin.Op != token.EQL {
+						eq = false
+						return
+					}
+					a, b := resolveVal(bin.X), resolveVal(bin.Y)
+					isItem := func(v ssa.Value) bool { return v == ssa.Value(pred.Params[0]) }
+					isX := func(v ssa.Value) bool {
+						if v == ssa.Value(fn.Params[1]) {
+							return true
+						}
+						if ld, ok := v.(*ssa.UnOp); ok && ld.Op == token.MUL {
+							if cell := cellOf(ld.X); cell != nil {
+								return cellHolds(cell, fn.Params[1])
+							}
+						}
+						if fv, ok := v.(*ssa.FreeVar); ok {
+							return fv.Name() == fn.Params[1].Name()
+						}
+						return false
+					}
+					if !((isItem(a) && isX(b)) || (isItem(b) && isX(a))) {
+						eq = false
+					}
+				})
+				if eq && nr == 1 {
+					delegated = true
+				}
+			})
+			if delegated {
+				r.discharged(name+"|scan-bound#1", fn.Pos(), "delegates to LastIndexFunc with the same slice and the predicate item == x")
+				continue
+			}
+		}
 		if n == 0 {
 			r.undecided(name+"|scan", fn.Pos(), "no count-down loop found")
 		}
